@@ -482,6 +482,23 @@ example :
                  | _ => [.err "finish"])
      | _ => (0, 0, [])) = (0, 1, [.ok [65], .ok [66], .ok [67], .ok [68]]) := by decide +kernel
 
+/-- `duplicate()`: whatever state the original is in — a partial batch collected, frames not yet flushed — the duplicate
+    delivers exactly what is sent through *it*, each item once: nothing of the original's comes along (so nothing the
+    original has accepted is delivered twice), and the original's own delivery is the theorem above, untouched. -/
+theorem c03_duplicate_delivers_only_its_own_partial (c : Codec α) (good : α → Prop) (hc : c.Lossless good) (z : Compressor)
+    (hz : z.Lossless) (lim : Nat) (orig : Pub) (ops : List (PubOp α))
+    (hgood : ∀ op ∈ ops, ∀ a ∈ op.item, good a)
+    (hfit : ∀ (pend : List α) ms, mapRes c.encode pend = .ok ms → Fits ms)
+    (p pf : Pub)
+    (hrun : orig.duplicate.applyAll c z lim ops = .ok p)
+    (hfinish : p.finish z lim = .ok pf) :
+    subscriberOutputs c z pf.wire = (ops.flatMap PubOp.item).map Res.ok :=
+  (c03_fidelity_any_driving_partial c good hc z hz lim orig.config ops hgood hfit p pf hrun hfinish).1
+
+/-- the duplicate of a publisher that holds a partial batch holds none -/
+example : (({ batch := some [[1], [2]], size := 10, framed := [.message [3]] } : Pub).duplicate) = { batch := some [], size := 10 } := by
+  decide
+
 /-- A known finding, stated on the model (`known_findings.json`, C03-oversize-batch): when a batch outgrows the
     frame limit, `send_batch` has already drained it when the framed writer refuses the frame — the `send` that
     triggered the framing fails, and the members of the batch, whose `send`s had all returned `Ok`, are gone.
@@ -603,3 +620,4 @@ end Selium.Client
 #print axioms Selium.Client.fromPub_all
 #print axioms Selium.Client.c03_end_to_end_through_the_router_partial
 #print axioms Selium.Client.c03_refused_batch_loses_accepted_members
+#print axioms Selium.Client.c03_duplicate_delivers_only_its_own_partial
